@@ -567,7 +567,7 @@ _public_ int m_mod_set_tokenbucket(m_mod_t *mod, uint32_t rate, uint64_t burst) 
 
     /* If it was already set, remove old timer */
     if (mod->tb.timer.ns != 0) {
-        m_mod_src_deregister_tmr(mod, &mod->tb.timer);
+        deregister_internal_tmr(mod, &mod->tb.timer, &mod->tb);
     }
     
     // Rate 0 -> disable tb
